@@ -58,6 +58,77 @@ class Ob:
         return d
 
 
+class SectionTimeout(BaseException):
+    """raised by the watchdog (BaseException: code under test that catches Exception does not swallow it)"""
+
+    def __init__(self, token, label):
+        BaseException.__init__(self, label)
+        self.token, self.label = token, label
+
+
+_DEADLINES = []          # stack of (deadline, token, label): the timer is armed for the nearest one
+
+
+def _rearm():
+    import signal
+    if not _DEADLINES:
+        signal.setitimer(signal.ITIMER_REAL, 0)
+        return
+    d = min(x[0] for x in _DEADLINES)
+    signal.setitimer(signal.ITIMER_REAL, max(d - time.time(), 0.01))
+
+
+def _on_alarm(signum, frame):
+    now = time.time()
+    due = [x for x in _DEADLINES if x[0] <= now + 0.005]
+    if not due:
+        _rearm()
+        return
+    d = due[0]                      # the outermost expired level: everything inside it is abandoned
+    raise SectionTimeout(d[1], d[2])
+
+
+class watchdog:
+    """with watchdog(seconds, label) as w: ...   -- nestable; on expiry SectionTimeout(token) is raised in the main thread;
+    catch it and compare `exc.token is w.token` (a foreign one is re-raised).  A check never hangs: what is not finished in
+    its budget is recorded as undecided."""
+
+    def __init__(self, seconds, label):
+        self.seconds, self.label, self.token = float(seconds), label, object()
+        self.armed = False
+
+    def __enter__(self):
+        import signal
+        import threading
+        if threading.current_thread() is not threading.main_thread():
+            return self
+        try:
+            if not _DEADLINES:
+                signal.signal(signal.SIGALRM, _on_alarm)
+            _DEADLINES.append((time.time() + self.seconds, self.token, self.label))
+            self.armed = True
+            _rearm()
+        except (ValueError, AttributeError):
+            pass
+        return self
+
+    def __exit__(self, *exc):
+        if self.armed:
+            for i, x in enumerate(_DEADLINES):
+                if x[1] is self.token:
+                    del _DEADLINES[i:]
+                    break
+            try:
+                _rearm()
+            except (ValueError, AttributeError):
+                pass
+        return False
+
+
+def section_budget(tier):
+    return float(os.environ.get("VERIF_SECTION_BUDGET", "300" if tier == "quick" else "1500"))
+
+
 class Ctx:
     """Collector handed to a property module's `run(ctx)`."""
 
@@ -73,6 +144,7 @@ class Ctx:
         self.trusted = []
         self.standins = []
         self.crosscheck_points = 0
+        self.claim_times = []
         self.paths = 0
         self.vacuity = []
         self.samples = []
@@ -113,11 +185,22 @@ class Ctx:
         if current_path() is not None:
             return fn(*a, **k)                  # already inside an explored path
         start = len(self.obs)
+        budget = section_budget(self.tier)
+        wd = watchdog(budget, sect)
         try:
             # a section that does not fork runs exactly once; if the code under test branches on a symbolic value outside
             # any claim-level exploration, the whole section is re-run on every path and obligations of the same name
             # are merged: the worst verdict wins (proved only if proved on every path)
-            runs = explore(lambda: fn(*a, **k), max_paths=16, on_budget="stop")
+            with wd:
+                runs = explore(lambda: fn(*a, **k), max_paths=16, on_budget="stop")
+        except SectionTimeout as exc:
+            if exc.token is not wd.token:
+                raise
+            # the changed code leads the engine into a computation it does not finish (e.g. a dense symbolic solve): the
+            # section is left undecided (exit 2), the check goes on -- a check never hangs
+            self.add(Ob("%s.budget.%s" % (self.prop, sect), "guard", "undecided", "watchdog", budget,
+                        "section not finished within %.0f s (VERIF_SECTION_BUDGET); obligations it would have generated are undecided" % budget))
+            return None
         except Exception:
             tb = traceback.format_exc()
             self.add(Ob("%s.engine.%s" % (self.prop, sect), "guard", "error", "python", 0.0, tb[-1500:]))
@@ -230,6 +313,17 @@ def finish(ctx, level, level_note="", checker_cmd=None):
     """Aggregate, write evidence, print verdict lines, return exit code."""
     known = [k for k in load_known() if k["property"] == ctx.prop]
     wall = time.time() - ctx.t0
+    # precision contract: no floating allocation narrower than float64 while the code under contract ran symbolically
+    try:
+        from .npproxy import NARROW_DTYPES
+        if NARROW_DTYPES:
+            ctx.add(Ob(ctx.prop + ".precision.float64_intermediates", "c", "failed", "symbolic-execution(allocation log)", 0.0,
+                       "the code under contract stores intermediate results in a floating type narrower than float64: %s -- the values it returns carry "
+                       "~1e-7 relative error, outside every tolerance of this property (the proofs treat floats as reals; the float64 link is what the "
+                       "cross-checks cover)" % ", ".join("%s (%s)" % x for x in NARROW_DTYPES[:6]),
+                       cex=dict(allocations=[list(x) for x in NARROW_DTYPES[:12]])))
+    except Exception:
+        pass
     # vacuity guard: every obligation family recorded for this property on the unchanged tree (required_obligations.json,
     # generated by tools/gen_required.py, committed) must be present again -- a check that loses obligations must not pass
     try:
@@ -242,7 +336,7 @@ def finish(ctx, level, level_note="", checker_cmd=None):
             n = _re.sub(r"\.(path|n|o)\d+\b", "", n)
             return _re.sub(r"\.\d+\b", "", n)
         present = {_fam(o.name) for o in ctx.obs}
-        engine_errors = any(o.status == "error" for o in ctx.obs)
+        engine_errors = any(o.status == "error" or ".budget." in o.name for o in ctx.obs)
         missing = [r_ for r_ in required if r_ not in present]
         if missing and not engine_errors:
             ctx.add(Ob(ctx.prop + ".guard.required_obligations", "guard", "error", "vacuity-guard", 0.0,
@@ -324,6 +418,9 @@ def finish(ctx, level, level_note="", checker_cmd=None):
             backends=backends,
             solver_time_s=round(sum(o.time_s for o in ctx.obs), 3),
             second_solver_cvc5=second,
+            slowest_claims=[dict(claim=n_, seconds=t_) for t_, n_ in sorted(ctx.claim_times, reverse=True)[:3]],
+            watchdog_budgets_s=dict(section=section_budget(ctx.tier), claim=0.5 * section_budget(ctx.tier)),
+            contracts_reattached_by_role=dict(getattr(__import__("pvx.loader", fromlist=["_cache"])._cache.get("py"), "reattached", {}) or {}),
             paths=ctx.paths,
             crosscheck_points=ctx.crosscheck_points,
             vacuity_witnesses=ctx.vacuity,
@@ -366,8 +463,14 @@ def run_property(prop, tier="quick", seed=None):
     except Exception:
         print("CHECKER-ERROR property=%s: cannot import %s\n%s" % (prop, module_name, traceback.format_exc()))
         return 3
+    total = float(os.environ.get("VERIF_TOTAL_BUDGET", "1500" if tier == "quick" else "5400"))
+    wd = watchdog(total, "whole check")
     try:
-        mod.run(ctx)
+        with wd:
+            mod.run(ctx)
+    except SectionTimeout as exc:
+        ctx.add(Ob(prop + ".budget.total", "guard", "undecided", "watchdog", total,
+                   "check not finished within %.0f s (VERIF_TOTAL_BUDGET; stopped in: %s); the obligations not generated are undecided" % (total, exc.label)))
     except Exception:
         tb = traceback.format_exc()
         ctx.add(Ob(prop + ".engine", "guard", "error", "python", 0.0, tb[-1500:]))
